@@ -10,3 +10,14 @@ fp("dask/_task_spec.py", "convert_legacy_task", "convert_legacy_graph", "Task.__
    "Task.__getstate__", "Task.__setstate__", "NestedContainer.__getstate__", "NestedContainer.__setstate__",
    "execute_graph", "_identity_cast", "GraphNode._verify_values")
 fp("dask/core.py", "get", "keys_in_tasks", "get_dependencies")
+
+# C09
+fp("dask/optimization.py", "cull", "inline", "inline_functions", "fuse_linear", "fuse", "functions_of",
+   "default_fused_keys_renamer", "default_fused_linear_keys_renamer")
+fp("dask/core.py", "subs")
+fp("dask/_task_spec.py", "cull", "fuse_linear_task_spec", "resolve_aliases", "GraphNode.fuse", "Task.substitute",
+   "Alias.substitute", "NestedContainer.substitute", "Dict.substitute", "TaskRef.substitute", "DataNode.substitute",
+   "_execute_subgraph")
+
+# C06
+fp("dask/order.py", "order", "_connecting_to_roots", "ndependencies")
